@@ -578,7 +578,124 @@ def complement(a):
         return a[:-5] + " != 0"
     if a.endswith(" != 0"):
         return a[:-5] + " == 0"
+    if a.endswith(" >= 0"):
+        # integers: not (P >= 0)  <=>  -P - 1 >= 0
+        q = _parse_lin(a[:-5])
+        if q is not None:
+            return "%s >= 0" % str((Poly.const(-1) - q).normalised_int() if False else (Poly.const(-1) - q))
     return None
+
+
+def _parse_lin(txt):
+    """a polynomial printed by Poly.__str__ read back (monomials as opaque symbols), or None"""
+    terms, depth, cur, sign = [], 0, "", 1
+    i = 0
+    txt = txt.strip()
+    if txt.startswith("-"):
+        sign, txt = -1, txt[1:]
+    signs = [sign]
+    while i < len(txt):
+        ch = txt[i]
+        if ch in "([{<":
+            depth += 1
+        elif ch in ")]}>":
+            depth -= 1
+        if depth == 0 and txt[i:i + 3] in (" + ", " - "):
+            terms.append(cur)
+            signs.append(1 if txt[i:i + 3] == " + " else -1)
+            cur = ""
+            i += 3
+            continue
+        cur += ch
+        i += 1
+    terms.append(cur)
+    out = Poly()
+    for sg, tm_ in zip(signs, terms):
+        tm_ = tm_.strip()
+        if not tm_:
+            return None
+        # split the monomial on '*' at depth 0
+        fs, d2, c2 = [], 0, ""
+        for ch in tm_:
+            if ch in "([{<":
+                d2 += 1
+            elif ch in ")]}>":
+                d2 -= 1
+            if ch == "*" and d2 == 0:
+                fs.append(c2)
+                c2 = ""
+            else:
+                c2 += ch
+        fs.append(c2)
+        coef = Fraction(sg)
+        mono = Poly.const(1)
+        for f_ in fs:
+            try:
+                coef *= Fraction(f_)
+            except (ValueError, ZeroDivisionError):
+                mono = mono * Poly.sym(f_)
+        out = out + mono.scale(coef)
+    return out
+
+
+def prop_equivalent(got, want, limit=4000):
+    """are two disjunctions of conjunctions (sets of atom-string sets) equivalent as PROPOSITIONAL formulas over their
+    atoms (an atom and its `complement` being one variable)?  Equivalence as propositional formulas implies equivalence
+    for every input, whatever the atoms mean, so `True` is a proof; `False` only means "not shown"."""
+    def lit(a):
+        c = complement(a)
+        if c is not None and c < a:
+            return (c, False)
+        return (a, True)
+
+    def norm(paths):
+        out = set()
+        for p_ in paths:
+            ls = frozenset(lit(a) for a in p_)
+            if any((v, not b) in ls for (v, b) in ls):
+                continue                       # contradictory conjunction
+            out.add(ls)
+        # absorption: a conjunction that contains another one adds nothing
+        return frozenset(r for r in out if not any(o < r for o in out))
+    budget = [limit]
+    memo = {}
+
+    def eq(A, B):
+        if A == B:
+            return True
+        key = (A, B)
+        if key in memo:
+            return memo[key]
+        budget[0] -= 1
+        if budget[0] < 0:
+            return False
+        tA, tB = frozenset() in A, frozenset() in B
+        if tA and tB:
+            return True
+        vs = sorted(set(v for r in (A | B) for (v, _) in r))
+        if not vs:
+            return bool(A) == bool(B)
+        # split on the variable that occurs most often
+        cnt = {}
+        for r in (A | B):
+            for (v, _) in r:
+                cnt[v] = cnt.get(v, 0) + 1
+        v0 = max(vs, key=lambda v: (cnt[v], v))
+        ok = True
+        for val in (True, False):
+            A2 = norm_l(frozenset(r - {(v0, val)} for r in A if (v0, not val) not in r))
+            B2 = norm_l(frozenset(r - {(v0, val)} for r in B if (v0, not val) not in r))
+            if not eq(A2, B2):
+                ok = False
+                break
+        memo[key] = ok
+        return ok
+
+    def norm_l(rows):
+        if frozenset() in rows:
+            return frozenset([frozenset()])
+        return frozenset(r for r in rows if not any(o < r for o in rows))
+    return eq(norm(got), norm(want))
 
 
 def merge_complementary(paths):
@@ -607,6 +724,10 @@ def compare(res, rule, fn, where, got, want, what="accept path"):
     """Exact comparison of path sets; reports atoms missing / extra relative to the closest spec case."""
     got = set(merge_complementary(got))
     want = set(merge_complementary(want))
+    if got != want and prop_equivalent(got, want):
+        # the same predicate as a propositional formula over the same atoms (a decision ladder nested differently, shared
+        # tests factored out): equal for every input
+        got = set(want)
     n_ok = len(got & want)
     for _ in range(n_ok):
         res.hit(rule)
